@@ -40,6 +40,11 @@ def run_mixed(ctx, prop, books, per_book=40, depth=3, exact=False):
             # an error value flowing through enclosing functions/operators is outside the statements (C13/C17 notes): only
             # reference outcomes that are values are judged here
             return any(_is_err(o) for o in outs)
-        judge_book(ctx, prop, wbspec.spec(wbspec.sheet('S', cells)), targets, vals, exact=exact, name=f'mx{b}', monitor='mixed-expression-reference',
-                   strict_text=True, nontrivial=lambda case, outs: True, unjudged=unjudged, flag_consistency=False, empty_text_is_blank=True)
+        # every third book cell by cell through the entry-point API (the slice of each formula's own precedents)
+        per_cell = b % 3 == 2
+        if per_cell:
+            r.count('mixed_books_translated_by_entry_cells')
+        judge_book(ctx, prop, wbspec.spec(wbspec.sheet('S', cells)), targets, vals[:3] if per_cell else vals, exact=exact, name=f'mx{b}',
+                   monitor='mixed-expression-reference', strict_text=True, nontrivial=lambda case, outs: True, unjudged=unjudged, flag_consistency=False,
+                   empty_text_is_blank=True, per_cell=per_cell)
     r.sample({'mixed_formulas': list(meta.values())[:6]})
